@@ -388,13 +388,6 @@ def parseNormAstFile (file : Str) : Option (List NTree) :=
 
 /-! ### TypeScript type literals (raw response type, parameter type) -/
 
-/-- nullable / list structure of a type -/
-inductive TyShape where
-  | leaf
-  | nullable (inner : TyShape)
-  | list (inner : TyShape)
-deriving Repr, Inhabited, BEq, DecidableEq
-
 /-- a property of an object type: key, `?`, the wrappers around the innermost type and, when the
 innermost type is an object type, its alternatives -/
 inductive TProp where
